@@ -66,4 +66,743 @@ theorem C06_transactions_leave_the_lists_alone (cfg : Cfg) (n : Node) (txs : Lis
     listCount (applyTxs cfg n.cache (n.height + 1) n.led txs).led d t = listCount n.led d t :=
   applyTxs_count_eq cfg n.cache (n.height + 1) n.led txs d t
 
+/-! ## the positive half: an unanswered request is on the list of H+T and times out in that block
+
+`Due` is the invariant: the record is open, its deadline is still to come, the id is on the list of that deadline exactly once, and
+every timeout list is well-formed (`[none]`, the way an emptied list is stored, or without a `none`).  A block that accepts the request
+establishes it (`C06_block_opens_due`), a block that does not answer it keeps it (`C06_block_keeps_due`, `C06_history_keeps_due`), and
+the block of the deadline fires (`C06_block_fires_due`, `C06_unanswered_request_times_out`). -/
+
+/-- "remove" is decided for a request between two hubs whose record is final, or for a receipt whose record says so -/
+theorem timeoutAct_remove {cfg : Cfg} {l : Led} {h : Nat} {tx : Tx} {rc : Rcpt} {d : Nat} {id : TxId}
+    (e : timeoutAct cfg l h tx rc = .remove d id) :
+    ∃ s i p, tx = .ibtp s i p ∧ i.frm = some id.frm ∧ i.to = some id.to ∧ i.index = id.index ∧
+      ((i.typ.isRequest = true ∧ (finalInterRecord l id).isSome = true) ∨
+       (i.typ.isResponse = true ∧ ∃ r, l.getS (.txRec id) = some (.trec r) ∧ d = r.height ∧
+          ¬ ((!rc.ok || rc.ret == "batch_ibtp") = true ∧ r.status.isFinal = false))) := by
+  unfold timeoutAct at e
+  split at e
+  · rename_i s i p
+    split at e
+    · rename_i f t hf ht
+      by_cases hreq : i.typ.isRequest = true
+      · have hresp : i.typ.isResponse = false := by
+          cases hh : i.typ <;> simp_all [IType.isRequest, IType.isResponse]
+        simp only [hreq, hresp, if_true, Bool.not_false, Bool.and_true] at e
+        split at e
+        · cases e
+        · split at e
+          · rename_i hfi
+            cases e
+            exact ⟨s, i, p, rfl, hf, ht, rfl, Or.inl ⟨hreq, hfi⟩⟩
+          · split at e
+            · cases e
+            · split at e
+              · cases e
+              · cases e
+      · simp only [hreq, Bool.false_eq_true, if_false] at e
+        split at e
+        · cases e
+        · simp only [Option.isSome_none, Bool.false_eq_true, if_false] at e
+          split at e
+          · cases e
+          · split at e
+            · rename_i hresp
+              split at e
+              · rename_i r hr
+                split at e
+                · cases e
+                · rename_i hc
+                  cases e
+                  refine ⟨s, i, p, rfl, hf, ht, rfl, Or.inr ⟨hresp, r, hr, rfl, ?_⟩⟩
+                  intro ⟨h1, h2⟩
+                  apply hc
+                  simp [h1, h2]
+              · cases e
+              · split at e
+                · cases e
+                · split at e <;> cases e
+            · cases e
+    · cases e
+  · cases e
+
+/-- what the bookkeeping decides for an accepted plain request with a deadline: list it under `h + T` -/
+theorem timeoutAct_request_add (cfg : Cfg) (l : Led) (h : Nat) (s : String) (i : Ibtp) (p : ProofKind) (rc : Rcpt) (t : TxId)
+    (hreq : i.typ.isRequest = true) (hfr : i.frm = some t.frm) (hto : i.to = some t.to) (hix : i.index = t.index)
+    (hdst : (t.to.chain == cfg.bxh) = false) (hg : i.group = none) (hfi : finalInterRecord l t = none)
+    (hok : rc.ok = true) (hnb : (rc.ret == "batch_ibtp") = false) (hts : (rc.txStatus == 1) = false)
+    (hT : 0 < i.timeout) (hT2 : i.timeout.toNat < maxU64 - h) :
+    timeoutAct cfg l h (.ibtp s i p) rc = .add (h + i.timeout.toNat) t := by
+  have hresp : i.typ.isResponse = false := by
+    cases hh : i.typ <;> simp_all [IType.isRequest, IType.isResponse]
+  have hid : ({ frm := t.frm, to := t.to, index := i.index } : TxId) = t := by rw [hix]
+  unfold timeoutAct
+  simp only [hfr, hto, hid, hreq, hresp, hdst, hts, hg, hfi, hok, hnb]
+  simp
+  omega
+
+theorem tmReport_rec_self {l : Led} {id : TxId} {typ : Nat} {r : Led × StatusChange} {rec : Rec}
+    (e : tmReport l id typ = .ok r) (hrec : l.getS (.txRec id) = some (.trec rec)) :
+    ∃ st', txFsmStep rec.status (receiptEvent typ) = some st' ∧ r.1.getS (.txRec id) = some (.trec { rec with status := st' }) := by
+  unfold tmReport at e
+  rw [hrec] at e
+  simp only at e
+  split at e
+  · cases e
+  · rename_i st' hst
+    cases e
+    exact ⟨st', hst, by simp⟩
+
+/-- a handled receipt of a transaction that has a record moves that record by the receipt's event — to a final status -/
+theorem handleIBTP_response_finalises {env : Env} {l : Led} {i : Ibtp} {r : Led × String} {t : TxId} {rec : Rec}
+    (h : handleIBTP env l i = .ok r) (hresp : i.typ.isResponse = true)
+    (hfr : i.frm = some t.frm) (hto : i.to = some t.to) (hix : i.index = t.index)
+    (hrec : l.getS (.txRec t) = some (.trec rec)) :
+    ∃ st', st'.isFinal = true ∧ r.1.getS (.txRec t) = some (.trec { rec with status := st' }) := by
+  obtain ⟨ck, hck⟩ := handleIBTP_ok_checked h
+  obtain ⟨e1, e2⟩ := checkIBTP_ends hck
+  have hreq := C04.isRequest_of_isResponse hresp
+  have hid : ({ frm := ck.src, to := ck.dst, index := i.index } : TxId) = t := by
+    rw [hfr] at e1; rw [hto] at e2
+    have a1 : t.frm = ck.src := Option.some.inj e1
+    have a2 : t.to = ck.dst := Option.some.inj e2
+    rw [← a1, ← a2, hix]
+  unfold handleIBTP at h
+  simp only [hck, hreq, hresp, if_true, if_false, Bool.false_eq_true, hid] at h
+  split at h
+  · cases h
+  · rename_i l1 c hr
+    have hafter : r.1.getS (.txRec t) = l1.getS (.txRec t) := by
+      have hn : (notifySrcDst env l1 ck.src ck.dst c ck.isBatch).getS (.txRec t) = l1.getS (.txRec t) :=
+        notifySrcDst_frameA _ _ _ _ _ _ _ (rec_not_aux t)
+      have hp := processIBTP_rec (notifySrcDst env l1 ck.src ck.dst c ck.isBatch) i ck c t
+      generalize hpr : processIBTP (notifySrcDst env l1 ck.src ck.dst c ck.isBatch) i ck c = pr at h hp
+      obtain ⟨l3, ret⟩ := pr
+      simp only at h hp
+      split at h
+      · split at h
+        · cases h
+        · cases h
+          show ((l3.post .audit).post .audit).getS _ = _
+          simp only [Led.getS_post]
+          rw [hp, hn]
+      · cases h; rw [hp, hn]
+    split at hr
+    · cases hr
+    · rename_i y hy
+      cases hr
+      obtain ⟨st', h3, h4⟩ := tmReport_rec_self hy hrec
+      exact ⟨st', receipt_step_final _ _ _ hresp h3, by rw [hafter]; exact h4⟩
+
+/-- … and so does the transaction that carries it, when its receipt is a success -/
+theorem applyTx_valid_response_finalises (env : Env) (l : Led) (s : String) (i : Ibtp) (p : ProofKind) (inv : Option String)
+    (t : TxId) (rec : Rec)
+    (hok : (applyTx env l (.ibtp s i p) inv).2.rcpt.ok = true) (hresp : i.typ.isResponse = true)
+    (hfr : i.frm = some t.frm) (hto : i.to = some t.to) (hix : i.index = t.index)
+    (hrec : l.getS (.txRec t) = some (.trec rec)) :
+    ∃ st', st'.isFinal = true ∧ (applyTx env l (.ibtp s i p) inv).1.getS (.txRec t) = some (.trec { rec with status := st' }) := by
+  obtain ⟨r, h1, h2⟩ := applyTx_ok_effect env l s i p inv hok
+  obtain ⟨st', hf, h3⟩ := handleIBTP_response_finalises (t := t) (rec := rec) h1 hresp hfr hto hix hrec
+  exact ⟨st', hf, by rw [h2]; exact h3⟩
+
+/-- a receipt transaction for `t` -/
+def RespFor (t : TxId) (tx : Tx) : Prop :=
+  ∃ s i pk, tx = .ibtp s i pk ∧ i.typ.isResponse = true ∧ i.frm = some t.frm ∧ i.to = some t.to ∧ i.index = t.index
+
+/-- **a block that leaves an open record as it was accepted no receipt for it**: every receipt transaction for `t` in such a block has
+a failed receipt (an accepted one would have moved the record to a final status, and a final status is never left) -/
+theorem block_unanswered_no_valid_response (cfg : Cfg) (n : Node) (txs : List (Tx × Bool)) (t : TxId) (rec0 : Rec)
+    (hP : PairInv { cfg := cfg, cache := n.cache, height := 0, txIndex := 0 } n.led t)
+    (hr0 : n.led.getS (.txRec t) = some (.trec rec0)) (hopen : rec0.status.isFinal = false)
+    (hnd : ∀ p ∈ txs, ∀ sg args, p.1 ≠ .bvm sg "interchain" "DeleteInterchain" args)
+    (hsame : (applyTxs cfg n.cache (n.height + 1) n.led txs).led.getS (.txRec t) = some (.trec rec0)) :
+    ∀ p ∈ (txs.map (·.1)).zip (applyTxs cfg n.cache (n.height + 1) n.led txs).rcpts, RespFor t p.1 → p.2.ok = false := by
+  let e0 : Env := { cfg := cfg, cache := n.cache, height := 0, txIndex := 0 }
+  have hΦ := applyTxs_zip_fold cfg n.cache (n.height + 1)
+    (fun tx => ∀ sg args, tx ≠ .bvm sg "interchain" "DeleteInterchain" args)
+    (fun l zs => PairInv e0 l t ∧
+      ((l.getS (.txRec t) = some (.trec rec0) ∧ ∀ p ∈ zs, RespFor t p.1 → p.2.ok = false) ∨
+       (∃ st', st'.isFinal = true ∧ l.getS (.txRec t) = some (.trec { rec0 with status := st' }))))
+    (by
+      intro idx l zs tx inv hg ⟨hp, hcase⟩
+      let eb : Env := { cfg := cfg, cache := n.cache, height := n.height + 1, txIndex := idx }
+      have pc : PairInv eb l t := PairInv.conv (e1 := e0) (e2 := eb) rfl rfl hp
+      obtain ⟨hP', hch⟩ := applyTx_known_rec eb l tx inv t pc hg
+      refine ⟨PairInv.conv (e1 := eb) (e2 := e0) rfl rfl hP', ?_⟩
+      rcases hcase with ⟨hr, hall⟩ | ⟨st', hf, hr⟩
+      · rcases hch with e | ⟨s, i, p, htx, hrsp, hfr, hto, hix, rec', st', g1, g2, g3⟩
+        · left
+          refine ⟨by rw [e]; exact hr, ?_⟩
+          intro q hq hresp
+          rcases List.mem_append.mp hq with h | h
+          · exact hall q h hresp
+          · simp at h; subst h
+            simp only at hresp ⊢
+            obtain ⟨s, i, pk, htx, hrsp, hfr, hto, hix⟩ := hresp
+            cases hok : (applyTx eb l tx inv).2.rcpt.ok with
+            | false => rfl
+            | true =>
+              exfalso
+              subst htx
+              obtain ⟨st', hf, h3⟩ := applyTx_valid_response_finalises eb l s i pk inv t rec0 hok hrsp hfr hto hix hr
+              rw [e, hr] at h3
+              have : rec0.status = st' := congrArg Rec.status (Val.trec.inj (Option.some.inj h3))
+              rw [this] at hopen; rw [hopen] at hf; cases hf
+        · right
+          rw [hr] at g1; cases g1
+          exact ⟨st', receipt_step_final _ _ _ hrsp g2, g3⟩
+      · right
+        rcases hch with e | ⟨s, i, p, htx, hrsp, hfr, hto, hix, rec', st'', g1, g2, g3⟩
+        · exact ⟨st', hf, by rw [e]; exact hr⟩
+        · exfalso
+          rw [hr] at g1; cases g1
+          rw [C04_final_absorbing_step _ _ hf] at g2
+          cases g2)
+    n.led ⟨hP, Or.inl ⟨hr0, by intro p hp; cases hp⟩⟩ txs hnd
+  obtain ⟨_, hcase⟩ := hΦ
+  rcases hcase with ⟨_, hall⟩ | ⟨st', hf, hr⟩
+  · exact hall
+  · exfalso
+    rw [hsame] at hr
+    have : rec0.status = st' := congrArg Rec.status (Val.trec.inj (Option.some.inj hr))
+    rw [this] at hopen; rw [hopen] at hf; cases hf
+
+theorem mem_remsAt {d : Nat} {acts : List TOAct} {t : TxId} (h : t ∈ remsAt d acts) : TOAct.remove d t ∈ acts := by
+  unfold remsAt at h
+  obtain ⟨a, ha, e⟩ := List.mem_filterMap.mp h
+  split at e
+  · split at e
+    · rename_i hd; cases e; subst hd; exact ha
+    · cases e
+  · cases e
+
+/-- with an open record and no accepted receipt among the block's pairs, the bookkeeping takes `t` off no list -/
+theorem no_remove_of_unanswered (cfg : Cfg) (l : Led) (h : Nat) (t : TxId) (rec0 : Rec) (zs : List (Tx × Rcpt))
+    (hrec : l.getS (.txRec t) = some (.trec rec0)) (hopen : rec0.status.isFinal = false)
+    (hall : ∀ p ∈ zs, RespFor t p.1 → p.2.ok = false) (d : Nat) :
+    t ∉ remsAt d (zs.map (fun p => timeoutAct cfg l h p.1 p.2)) := by
+  intro hm
+  obtain ⟨pr, hpr, hact⟩ := List.mem_map.mp (mem_remsAt hm)
+  obtain ⟨s, i, p, htx, hfr, hto, hix, hc⟩ := timeoutAct_remove hact
+  rcases hc with ⟨_, hfi⟩ | ⟨hresp, r, hr, _, hnot⟩
+  · rw [finalInterRecord_none_of_open l t rec0 hrec hopen] at hfi; cases hfi
+  · rw [hrec] at hr
+    have hrr : rec0 = r := Val.trec.inj (Option.some.inj hr)
+    subst hrr
+    have := hall pr hpr ⟨s, i, p, htx, hresp, hfr, hto, hix⟩
+    apply hnot
+    exact ⟨by simp [this], hopen⟩
+
+/-- the list a block's bookkeeping leaves under `d`: an id it does not take off is on it as often as before plus the block's
+additions, provided it was there or is added (so that the value is a list at all) -/
+theorem setTimeoutList_count_eq (cfg : Cfg) (l : Led) (h : Nat) (txs : List Tx) (rcpts : List Rcpt) (d : Nat) (t : TxId)
+    (hna : ((txs.zip rcpts).map (fun p => timeoutAct cfg l h p.1 p.2)).contains .abort = false)
+    (hR : t ∉ remsAt d ((txs.zip rcpts).map (fun p => timeoutAct cfg l h p.1 p.2)))
+    (hpos : 0 < listCount l d t + (addsAt d ((txs.zip rcpts).map (fun p => timeoutAct cfg l h p.1 p.2))).count t) :
+    listCount (setTimeoutList cfg l h txs rcpts) d t =
+      listCount l d t + (addsAt d ((txs.zip rcpts).map (fun p => timeoutAct cfg l h p.1 p.2))).count t := by
+  unfold listCount
+  rw [setTimeoutList_at cfg l h txs rcpts d hna]
+  generalize (addsAt d ((txs.zip rcpts).map (fun p => timeoutAct cfg l h p.1 p.2))) = A at hpos ⊢
+  generalize (remsAt d ((txs.zip rcpts).map (fun p => timeoutAct cfg l h p.1 p.2))) = R at hR ⊢
+  have hlist : ∃ lst, listAfter (l.getS (.timeout d)) A R = some (.tlist lst) := by
+    unfold listAfter
+    simp only
+    by_cases hRe : R = []
+    · rw [if_pos hRe]
+      by_cases hA : A = []
+      · rw [if_pos hA]
+        rw [hA] at hpos
+        simp at hpos
+        unfold listCount at hpos
+        split at hpos
+        · rename_i lst e; exact ⟨lst, e⟩
+        · omega
+      · rw [if_neg hA]; exact ⟨_, rfl⟩
+    · rw [if_neg hRe]; exact ⟨_, rfl⟩
+  obtain ⟨lst, e⟩ := hlist
+  rw [e]
+  simp only
+  have := listAfter_count_eq _ _ _ lst t hR e
+  rw [curList_count] at this
+  unfold listCount at this
+  exact this
+
+/-- the count of `t` on the list of `d` after a block that leaves the open record of `t` as it was: what it was before -/
+theorem block_unanswered_count (cfg : Cfg) (n : Node) (txs : List (Tx × Bool)) (t : TxId) (rec0 : Rec)
+    (hO : OpenInv { cfg := cfg, cache := n.cache, height := 0, txIndex := 0 } n.led n.height t rec0)
+    (hopen : rec0.status.isFinal = false)
+    (hnd : ∀ p ∈ txs, ∀ sg args, p.1 ≠ .bvm sg "interchain" "DeleteInterchain" args)
+    (hna : NoAbort cfg n txs)
+    (hsame : (applyTxs cfg n.cache (n.height + 1) n.led txs).led.getS (.txRec t) = some (.trec rec0))
+    (d : Nat) (hpos : 0 < listCount n.led d t) :
+    listCount (setTimeoutList cfg (applyTxs cfg n.cache (n.height + 1) n.led txs).led (n.height + 1) (txs.map (·.1))
+      (applyTxs cfg n.cache (n.height + 1) n.led txs).rcpts) d t = listCount n.led d t := by
+  let e0 : Env := { cfg := cfg, cache := n.cache, height := 0, txIndex := 0 }
+  have conv : ∀ {l' : Led} (idx : Nat), PairInv e0 l' t → PairInv { cfg := cfg, cache := n.cache, height := n.height + 1, txIndex := idx } l' t :=
+    fun idx h => PairInv.conv (e1 := e0) (e2 := { cfg := cfg, cache := n.cache, height := n.height + 1, txIndex := idx }) rfl rfl h
+  have conv' : ∀ {l' : Led} (idx : Nat), PairInv { cfg := cfg, cache := n.cache, height := n.height + 1, txIndex := idx } l' t → PairInv e0 l' t :=
+    fun idx h => PairInv.conv (e1 := { cfg := cfg, cache := n.cache, height := n.height + 1, txIndex := idx }) (e2 := e0) rfl rfl h
+  have loopQ := applyTxs_zip_inv cfg n.cache (n.height + 1)
+    (fun tx => ∀ sg args, tx ≠ .bvm sg "interchain" "DeleteInterchain" args)
+    (fun l => PairInv e0 l t)
+    (fun tx rc => ∀ s i p, tx = .ibtp s i p → i.frm = some t.frm → i.to = some t.to → i.index = t.index → i.typ.isRequest = true → rc.ok = false)
+    (fun idx l tx inv hg hp => conv' idx (applyTx_known_rec _ l tx inv t (conv idx hp) hg).1)
+    (fun idx l tx inv _ hp s i p htx hfr hto hix hreq => C04_known_request_refused _ l tx inv t (conv idx hp) s i p htx hfr hto hix hreq)
+    n.led hO.pair txs hnd
+  obtain ⟨hPend, hQ⟩ := loopQ
+  have hall := block_unanswered_no_valid_response cfg n txs t rec0 hO.pair hO.recd hopen hnd hsame
+  have hcntA : listCount (applyTxs cfg n.cache (n.height + 1) n.led txs).led d t = listCount n.led d t :=
+    applyTxs_count_eq cfg n.cache (n.height + 1) n.led txs d t
+  unfold NoAbort at hna
+  generalize hAA : applyTxs cfg n.cache (n.height + 1) n.led txs = A at hsame hPend hQ hcntA hall hna ⊢
+  have hnoadd : (addsAt d (((txs.map (·.1)).zip A.rcpts).map (fun p => timeoutAct cfg A.led (n.height + 1) p.1 p.2))).count t = 0 := by
+    rw [List.count_eq_zero]
+    intro h1
+    have hm := mem_addsAt h1
+    obtain ⟨pr', hpr', hact⟩ := List.mem_map.mp hm
+    obtain ⟨s', i', p', htx', hfr', hto', hix', hreq', hok'⟩ := timeoutAct_add hact
+    have := hQ pr' hpr' s' i' p' htx' hfr' hto' hix' hreq'
+    rw [this] at hok'
+    cases hok'
+  have hnorem := no_remove_of_unanswered cfg A.led (n.height + 1) t rec0 _ hsame hopen hall d
+  have := setTimeoutList_count_eq cfg A.led (n.height + 1) (txs.map (·.1)) A.rcpts d t hna hnorem (by rw [hcntA]; omega)
+  rw [this, hnoadd, hcntA]
+  rfl
+
+theorem curList_wf (v : Option Val) (h : WFV v) : WFL (curList v) := by
+  unfold curList
+  split
+  · exact h _ rfl
+  · exact Or.inl rfl
+
+theorem listAfter_wf (v : Option Val) (A R : List TxId) (h : WFV v) : WFV (listAfter v A R) := by
+  have hc := curList_wf v h
+  -- after the additions
+  have h1 : WFV (if A = [] then v
+      else some (.tlist (if curList v == [none] then A.map (fun t => some (TId.single t)) else curList v ++ A.map (fun t => some (TId.single t))))) := by
+    by_cases hA : A = []
+    · rw [if_pos hA]; exact h
+    · rw [if_neg hA]
+      intro lst e
+      cases e
+      right
+      by_cases hn : (curList v == [none]) = true
+      · rw [if_pos hn]
+        intro x hx
+        obtain ⟨a, _, rfl⟩ := List.mem_map.mp hx
+        simp
+      · rw [if_neg hn]
+        intro x hx
+        rcases List.mem_append.mp hx with hx | hx
+        · rcases hc with hc | hc
+          · rw [hc] at hn; simp at hn
+          · exact hc x hx
+        · obtain ⟨a, _, rfl⟩ := List.mem_map.mp hx
+          simp
+  unfold listAfter
+  simp only
+  by_cases hR : R = []
+  · rw [if_pos hR]; exact h1
+  · rw [if_neg hR]
+    intro lst e
+    cases e
+    have hs := foldl_goRemove_sublist R (curList (if A = [] then v
+      else some (.tlist (if curList v == [none] then A.map (fun t => some (TId.single t)) else curList v ++ A.map (fun t => some (TId.single t))))))
+    have hc1 := curList_wf _ h1
+    generalize (curList (if A = [] then v
+      else some (.tlist (if curList v == [none] then A.map (fun t => some (TId.single t)) else curList v ++ A.map (fun t => some (TId.single t)))))) = start at hs hc1
+    generalize (R.foldl (fun acc id => (goRemove acc (.single id)).getD acc) start) = res at hs
+    rcases hc1 with hc1 | hc1
+    · subst hc1
+      unfold normList
+      split
+      · exact Or.inl rfl
+      · rename_i hne
+        left
+        cases res with
+        | nil => simp at hne
+        | cons a rest =>
+          have := hs.length_le
+          simp at this
+          subst this
+          have := hs.subset (List.mem_cons_self)
+          simp at this
+          rw [this]
+    · exact normList_wf _ (fun x hx => hc1 x (hs.subset hx))
+
+/-- a block whose bookkeeping is not abandoned keeps every timeout list well-formed -/
+theorem execBlock_wf (cfg : Cfg) (n : Node) (txs : List (Tx × Bool)) (hna : NoAbort cfg n txs)
+    (h : ∀ d, WFV (n.led.getS (.timeout d))) : ∀ d, WFV ((execBlock cfg n txs).1.led.getS (.timeout d)) := by
+  intro d
+  have hA := applyTxs_wf cfg n.cache (n.height + 1) n.led txs h
+  unfold NoAbort at hna
+  have hend : (execBlock cfg n txs).1.led.getS (.timeout d) =
+      (setTimeoutRollback (setTimeoutList cfg (applyTxs cfg n.cache (n.height + 1) n.led txs).led (n.height + 1) (txs.map (·.1))
+        (applyTxs cfg n.cache (n.height + 1) n.led txs).rcpts) (n.height + 1)).getS (.timeout d) := by
+    unfold execBlock
+    simp only
+    exact getS_of_store (finalise_store _) _
+  rw [hend, setTimeoutRollback_frame _ _ _ (by intro x e; cases e) (by intro x e; cases e),
+    setTimeoutList_at _ _ _ _ _ d hna]
+  exact listAfter_wf _ _ _ (hA d)
+
+theorem mem_getTimeoutList_of_count {l : Led} {d : Nat} {t : TxId} (hwf : WFV (l.getS (.timeout d)))
+    (hc : 0 < listCount l d t) : TId.single t ∈ getTimeoutList l d := by
+  unfold listCount at hc
+  unfold getTimeoutList
+  split at hc
+  · rename_i lst e
+    rw [e]
+    simp only
+    have hm : some (TId.single t) ∈ lst := List.count_pos_iff.mp hc
+    rcases hwf lst e with h | h
+    · subst h; simp at hm
+    · have : ¬ (lst.head? == some none) = true := by
+        intro hh
+        cases lst with
+        | nil => simp at hm
+        | cons a rest =>
+          simp at hh
+          exact h a List.mem_cons_self hh
+      rw [if_neg this]
+      exact List.mem_filterMap.mpr ⟨_, hm, rfl⟩
+  · omega
+
+/-- **due**: an open one-to-one transaction (not final) whose deadline is still to come and which is on the list of that deadline,
+exactly once; every timeout list is well-formed -/
+structure Due (cfg : Cfg) (n : Node) (t : TxId) (rec0 : Rec) : Prop where
+  opn : OpenInv { cfg := cfg, cache := n.cache, height := 0, txIndex := 0 } n.led n.height t rec0
+  begun : rec0.status.isFinal = false
+  ahead : n.height < rec0.height
+  listed : listCount n.led rec0.height t = 1
+  wf : ∀ d, WFV (n.led.getS (.timeout d))
+
+/-- **an unanswered request stays listed under its deadline**: a block before the deadline block that accepts no receipt for `t`
+(its record after the block's transactions is what it was) leaves `t` due -/
+theorem C06_block_keeps_due (cfg : Cfg) (n : Node) (txs : List (Tx × Bool)) (t : TxId) (rec0 : Rec)
+    (hD : Due cfg n t rec0)
+    (hnd : ∀ p ∈ txs, ∀ sg args, p.1 ≠ .bvm sg "interchain" "DeleteInterchain" args)
+    (hna : NoAbort cfg n txs)
+    (hsame : (applyTxs cfg n.cache (n.height + 1) n.led txs).led.getS (.txRec t) = some (.trec rec0))
+    (hlt : n.height + 1 < rec0.height) :
+    Due cfg (execBlock cfg n txs).1 t rec0 := by
+  have hopen : rec0.status.isFinal = false := hD.begun
+  obtain ⟨rec', hO', hc⟩ := C04_block_open_stays cfg n txs t rec0 hD.opn hnd hsame
+  have hrr : rec' = rec0 := by
+    rcases hc with h | ⟨h, _⟩
+    · exact h
+    · omega
+  subst hrr
+  refine ⟨hO', hD.begun, by rw [execBlock_height]; exact hlt, ?_, execBlock_wf cfg n txs hna hD.wf⟩
+  have hcnt := block_unanswered_count cfg n txs t rec' hD.opn hopen hnd hna hsame rec'.height (by rw [hD.listed]; omega)
+  have hend : (execBlock cfg n txs).1.led.getS (.timeout rec'.height) =
+      (setTimeoutRollback (setTimeoutList cfg (applyTxs cfg n.cache (n.height + 1) n.led txs).led (n.height + 1) (txs.map (·.1))
+        (applyTxs cfg n.cache (n.height + 1) n.led txs).rcpts) (n.height + 1)).getS (.timeout rec'.height) := by
+    unfold execBlock
+    simp only
+    exact getS_of_store (finalise_store _) _
+  rw [listCount_congr hend, listCount_congr (setTimeoutRollback_frame _ _ _ (by intro x e; cases e) (by intro x e; cases e)), hcnt]
+  exact hD.listed
+
+/-- **… and times out in the block of its deadline**: if the deadline block accepts no receipt for `t` either, its timeout step finds
+`t` on the list and moves it to BEGIN_ROLLBACK (`hg`: the groups on that list have their records, so the step is not abandoned) -/
+theorem C06_block_fires_due (cfg : Cfg) (n : Node) (txs : List (Tx × Bool)) (t : TxId) (rec0 : Rec)
+    (hD : Due cfg n t rec0)
+    (hnd : ∀ p ∈ txs, ∀ sg args, p.1 ≠ .bvm sg "interchain" "DeleteInterchain" args)
+    (hna : NoAbort cfg n txs)
+    (hsame : (applyTxs cfg n.cache (n.height + 1) n.led txs).led.getS (.txRec t) = some (.trec rec0))
+    (hdl : n.height + 1 = rec0.height)
+    (hg : GlobalsPresent (setTimeoutList cfg (applyTxs cfg n.cache (n.height + 1) n.led txs).led (n.height + 1) (txs.map (·.1))
+        (applyTxs cfg n.cache (n.height + 1) n.led txs).rcpts)
+      (getTimeoutList (setTimeoutList cfg (applyTxs cfg n.cache (n.height + 1) n.led txs).led (n.height + 1) (txs.map (·.1))
+        (applyTxs cfg n.cache (n.height + 1) n.led txs).rcpts) (n.height + 1))) :
+    tmGetStatus (execBlock cfg n txs).1.led t = some .beginRollback := by
+  have hopen : rec0.status.isFinal = false := hD.begun
+  have hcnt := block_unanswered_count cfg n txs t rec0 hD.opn hopen hnd hna hsame rec0.height (by rw [hD.listed]; omega)
+  rw [hD.listed, ← hdl] at hcnt
+  have hwfA := applyTxs_wf cfg n.cache (n.height + 1) n.led txs hD.wf
+  have hna' := hna
+  unfold NoAbort at hna'
+  have hwfS : WFV ((setTimeoutList cfg (applyTxs cfg n.cache (n.height + 1) n.led txs).led (n.height + 1) (txs.map (·.1))
+        (applyTxs cfg n.cache (n.height + 1) n.led txs).rcpts).getS (.timeout (n.height + 1))) := by
+    rw [setTimeoutList_at _ _ _ _ _ _ hna']
+    exact listAfter_wf _ _ _ (hwfA _)
+  have hmem := mem_getTimeoutList_of_count hwfS (by rw [hcnt]; omega)
+  have hfire := C06_fires_at_deadline _ (n.height + 1) t hmem hg
+  have hend : ∀ k, (execBlock cfg n txs).1.led.getS k =
+      (setTimeoutRollback (setTimeoutList cfg (applyTxs cfg n.cache (n.height + 1) n.led txs).led (n.height + 1) (txs.map (·.1))
+        (applyTxs cfg n.cache (n.height + 1) n.led txs).rcpts) (n.height + 1)).getS k := by
+    intro k
+    unfold execBlock
+    simp only
+    exact getS_of_store (finalise_store _) _
+  unfold tmGetStatus at hfire ⊢
+  simp only [hend]
+  exact hfire
+
+/-- **an accepted request with a deadline is due from the block that accepts it**: `t` is new when block `h = n.height + 1` starts; the
+block carries a request for `t` with `0 < T < maxU64 - h` whose receipt is a success (not a batch answer, not the begin-failure
+mark) and no receipt transaction for `t`.  After the block `t` has an open record with deadline `h + T` and is on the list of `h + T`
+exactly once -/
+theorem C06_block_opens_due (cfg : Cfg) (n : Node) (txs : List (Tx × Bool)) (t : TxId)
+    (hN : NewInv { cfg := cfg, cache := n.cache, height := 0, txIndex := 0 } n.led t)
+    (hul : ∀ d, n.height < d → listCount n.led d t = 0)
+    (hwf : ∀ d, WFV (n.led.getS (.timeout d)))
+    (hdst : (t.to.chain == cfg.bxh) = false)
+    (hnd : ∀ p ∈ txs, ∀ sg args, p.1 ≠ .bvm sg "interchain" "DeleteInterchain" args)
+    (hng : ∀ p ∈ txs, ∀ s i pk, p.1 = .ibtp s i pk → reqFor t p.1 = true → i.group = none)
+    (hna : NoAbort cfg n txs)
+    (hnoresp : ∀ p ∈ txs, ¬ RespFor t p.1)
+    (s : String) (i : Ibtp) (pk : ProofKind) (rc : Rcpt)
+    (hacc : (Tx.ibtp s i pk, rc) ∈ (txs.map (·.1)).zip (applyTxs cfg n.cache (n.height + 1) n.led txs).rcpts)
+    (hrf : reqFor t (.ibtp s i pk) = true) (hok : rc.ok = true) (hnb : (rc.ret == "batch_ibtp") = false)
+    (hts : (rc.txStatus == 1) = false) (hT : 0 < i.timeout) (hT2 : i.timeout.toNat < maxU64 - (n.height + 1)) :
+    ∃ rec, rec.height = n.height + 1 + i.timeout.toNat ∧ Due cfg (execBlock cfg n txs).1 t rec := by
+  have hΦ := applyTxs_zip_fold cfg n.cache (n.height + 1)
+    (fun tx => (∀ sg args, tx ≠ .bvm sg "interchain" "DeleteInterchain" args) ∧ (∀ s i p, tx = .ibtp s i p → reqFor t tx = true → i.group = none))
+    (FreshPhase cfg n t)
+    (fun idx l zs tx inv hg h => freshPhase_step cfg n t idx l zs tx inv hg.1 hg.2 h)
+    n.led (Or.inl ⟨hN, rfl⟩) txs (fun p hp => ⟨hnd p hp, hng p hp⟩)
+  have hcA : ∀ d, n.height < d → listCount (applyTxs cfg n.cache (n.height + 1) n.led txs).led d t = 0 := by
+    intro d hd
+    rw [applyTxs_count_eq cfg n.cache (n.height + 1) n.led txs d t]; exact hul d hd
+  have hwfA := applyTxs_wf cfg n.cache (n.height + 1) n.led txs hwf
+  have hwfE := execBlock_wf cfg n txs hna hwf
+  have hnoresp' : ∀ p ∈ (txs.map (·.1)).zip (applyTxs cfg n.cache (n.height + 1) n.led txs).rcpts, ¬ RespFor t p.1 := by
+    intro p hp
+    have := (List.of_mem_zip hp).1
+    obtain ⟨q, hq, e⟩ := List.mem_map.mp this
+    rw [← e]; exact hnoresp q hq
+  unfold NoAbort at hna
+  have hend : ∀ k, (execBlock cfg n txs).1.led.getS k =
+      (setTimeoutRollback (setTimeoutList cfg (applyTxs cfg n.cache (n.height + 1) n.led txs).led (n.height + 1) (txs.map (·.1))
+        (applyTxs cfg n.cache (n.height + 1) n.led txs).rcpts) (n.height + 1)).getS k := by
+    intro k
+    unfold execBlock
+    simp only
+    exact getS_of_store (finalise_store _) k
+  generalize hAA : applyTxs cfg n.cache (n.height + 1) n.led txs = A at hΦ hcA hna hacc hwfA hnoresp' hend
+  generalize hzs : (txs.map (·.1)).zip A.rcpts = zs at hΦ hna hacc hnoresp'
+  have hcnt2 : ∀ d, n.height < d → listCount (setTimeoutList cfg A.led (n.height + 1) (txs.map (·.1)) A.rcpts) d t ≤
+      (addsAt d (zs.map (fun p => timeoutAct cfg A.led (n.height + 1) p.1 p.2))).count t := by
+    intro d hd
+    have := setTimeoutList_count_le cfg A.led (n.height + 1) (txs.map (·.1)) A.rcpts d t
+    rw [hcA d hd, hzs] at this
+    omega
+  have hcntE : ∀ d, listCount (execBlock cfg n txs).1.led d t = listCount (setTimeoutList cfg A.led (n.height + 1) (txs.map (·.1)) A.rcpts) d t := by
+    intro d
+    rw [listCount_congr (hend _), listCount_congr (setTimeoutRollback_frame _ _ _ (by intro x e; cases e) (by intro x e; cases e))]
+  have hsvcE : ∀ c sid, (execBlock cfg n txs).1.led.getS (.svc c sid) = A.led.getS (.svc c sid) := by
+    intro c sid
+    rw [hend, setTimeoutRollback_frame _ _ _ (by intro x e; cases e) (by intro x e; cases e),
+      setTimeoutList_getS _ _ _ _ _ _ (by intro x e; cases e)]
+  have hctrE : reqCounter (execBlock cfg n txs).1.led t.frm t.to = reqCounter A.led t.frm t.to := by
+    have := C02_timeout_steps_keep_counters cfg A.led (n.height + 1) (txs.map (·.1)) A.rcpts t.frm t.to
+    rw [reqCounter_congr (fun x => hend _) t.frm t.to, this]
+  have hadd : ∀ (rec : Rec), Acc (n.height + 1) t zs rec → ∀ d,
+      0 < (addsAt d (zs.map (fun p => timeoutAct cfg A.led (n.height + 1) p.1 p.2))).count t → d = rec.height ∧ n.height + 1 < d := by
+    intro rec hA d hpos
+    have hm := mem_addsAt (List.count_pos_iff.mp hpos)
+    obtain ⟨pr, hpr, hact⟩ := List.mem_map.mp hm
+    obtain ⟨s, i, p, htx, hfr, hto, hix, hreq, hok⟩ := timeoutAct_add hact
+    obtain ⟨s', i', p', htx', h1, h2, h3⟩ := timeoutAct_add_deadline hact
+    rw [htx] at htx'
+    cases htx'
+    have hro : reqOk t pr = true := by unfold reqOk; rw [htx, reqFor_of hreq hfr hto hix, hok]; rfl
+    have := hA.2 pr hpr hro s i p htx
+    rw [recordHeight_of_add _ _ h1 h2] at this
+    have hpos' : 0 < i.timeout.toNat := by omega
+    exact ⟨by omega, by omega⟩
+  have hroacc : reqOk t (Tx.ibtp s i pk, rc) = true := by unfold reqOk; rw [hrf, hok]; rfl
+  rcases hΦ with ⟨hNA, hc⟩ | ⟨rec, hP, hr, hnf, hA⟩ | ⟨rec, st, hP, hr, hf, hA, q, hq, hR⟩
+  · exfalso
+    exact List.countP_eq_zero.mp hc _ hacc hroacc
+  · -- open
+    have hle1 : ∀ d, n.height < d → listCount (setTimeoutList cfg A.led (n.height + 1) (txs.map (·.1)) A.rcpts) d t ≤ 1 := by
+      intro d hd
+      have h1 := hcnt2 d hd
+      have h2 := count_adds_le_countP cfg A.led (n.height + 1) d t zs
+      have := hA.1
+      omega
+    have honly : ∀ d, n.height < d → listedAt (setTimeoutList cfg A.led (n.height + 1) (txs.map (·.1)) A.rcpts) d t → d = rec.height ∧ n.height + 1 < d := by
+      intro d hd hl
+      have h1 := hcnt2 d hd
+      have := listedAt_iff_count.mp hl
+      exact hadd rec hA d (by omega)
+    have hrh : rec.height = n.height + 1 + i.timeout.toNat := by
+      rw [hA.2 _ hacc hroacc s i pk rfl, recordHeight_of_add _ _ hT hT2]
+    obtain ⟨_, hreq, hfr, hto, hix⟩ : True ∧ i.typ.isRequest = true ∧ i.frm = some t.frm ∧ i.to = some t.to ∧ i.index = t.index := by
+      obtain ⟨s', i', p', htx, hreq, hfr, hto, hix⟩ := reqFor_elim hrf
+      cases htx
+      exact ⟨trivial, hreq, hfr, hto, hix⟩
+    have hgi : i.group = none := by
+      have hm := (List.of_mem_zip (by rw [hzs]; exact hacc)).1
+      obtain ⟨q, hq, e⟩ := List.mem_map.mp hm
+      exact hng q hq s i pk e (by rw [e]; exact hrf)
+    have hact := timeoutAct_request_add cfg A.led (n.height + 1) s i pk rc t hreq hfr hto hix hdst hgi
+      (finalInterRecord_none_of_open A.led t rec hr hnf) hok hnb hts hT hT2
+    have hinA : 0 < (addsAt rec.height (zs.map (fun p => timeoutAct cfg A.led (n.height + 1) p.1 p.2))).count t := by
+      apply List.count_pos_iff.mpr
+      unfold addsAt
+      refine List.mem_filterMap.mpr ⟨_, List.mem_map.mpr ⟨_, hacc, hact⟩, ?_⟩
+      simp [hrh]
+    have hnorem := no_remove_of_unanswered cfg A.led (n.height + 1) t rec zs hr hnf
+      (fun p hp hresp => absurd hresp (hnoresp' p hp)) rec.height
+    have hceq := setTimeoutList_count_eq cfg A.led (n.height + 1) (txs.map (·.1)) A.rcpts rec.height t
+      (by rw [hzs]; exact hna) (by rw [hzs]; exact hnorem) (by rw [hzs]; omega)
+    rw [hzs, hcA rec.height (by omega)] at hceq
+    have h2 := count_adds_le_countP cfg A.led (n.height + 1) rec.height t zs
+    have h3 := hA.1
+    refine ⟨rec, hrh, ⟨⟨hP.ordered.mono hsvcE, by rw [hctrE]; exact hP.bound, hP.loc⟩, ?_, ?_, ?_⟩, hnf, ?_, ?_, hwfE⟩
+    · rw [hend, Bxh.Props.C06.C06_not_listed_untouched _ _ t (fun hm => by
+        have := (honly _ (Nat.lt_succ_self _) (listedAt_of_mem_getTimeoutList hm)).2
+        omega),
+        setTimeoutList_getS _ _ _ _ _ _ (by intro x e; cases e)]
+      exact hr
+    · intro d hd
+      rw [execBlock_height] at hd
+      rw [hcntE]; exact hle1 d (by omega)
+    · intro d hd hl
+      rw [execBlock_height] at hd
+      rw [listedAt_iff_count, hcntE, ← listedAt_iff_count] at hl
+      exact (honly d (by omega) hl).1
+    · rw [execBlock_height]; omega
+    · rw [hcntE, hceq]; omega
+  · exfalso
+    obtain ⟨s', i', pk', hq1, hrsp, hfr, hto, hix, _⟩ := hR
+    exact hnoresp' q hq ⟨s', i', pk', hq1, hrsp, hfr, hto, hix⟩
+
+/-- a block that does not answer `t`: nobody calls the unguarded `DeleteInterchain`, the bookkeeping is not abandoned, and the record
+of `t` after the block's transactions is what it was (no receipt for it was accepted) -/
+structure Unanswered (cfg : Cfg) (n : Node) (txs : List (Tx × Bool)) (t : TxId) (rec0 : Rec) : Prop where
+  nodelete : ∀ p ∈ txs, ∀ sg args, p.1 ≠ .bvm sg "interchain" "DeleteInterchain" args
+  noabort : NoAbort cfg n txs
+  same : (applyTxs cfg n.cache (n.height + 1) n.led txs).led.getS (.txRec t) = some (.trec rec0)
+
+/-- **listed under H+T at every block boundary before the deadline**: over any history of blocks that ends before the deadline block
+and answers `t` in none of them, `t` stays due — open, on the list of its deadline exactly once -/
+theorem C06_history_keeps_due (cfg : Cfg) (blocks : List (List (Tx × Bool))) (n : Node) (t : TxId) (rec0 : Rec)
+    (hD : Due cfg n t rec0) (hlen : n.height + blocks.length < rec0.height)
+    (hB : ∀ j (hj : j < blocks.length), Unanswered cfg (runBlocks cfg n (blocks.take j)) blocks[j] t rec0) :
+    Due cfg (runBlocks cfg n blocks) t rec0 := by
+  induction blocks generalizing n with
+  | nil => exact hD
+  | cons b rest ih =>
+    have h0 := hB 0 (by simp)
+    simp only [List.take_zero, List.getElem_cons_zero] at h0
+    have h0' : Unanswered cfg n b t rec0 := h0
+    simp only [List.length_cons] at hlen
+    have hstep := C06_block_keeps_due cfg n b t rec0 hD h0'.nodelete h0'.noabort h0'.same (by omega)
+    have := ih (execBlock cfg n b).1 hstep (by rw [execBlock_height]; omega)
+      (fun k hk => by
+        have := hB (k + 1) (by simp; omega)
+        simpa [runBlocks] using this)
+    simpa [runBlocks] using this
+
+/-- **an unanswered request times out in the block of its deadline, H+T**: `t` is due (accepted at height H with 0 < T: open, on the
+list of H+T once); the blocks up to and including the block of height H+T answer it in none of them.  Then after the deadline block
+its status is BEGIN_ROLLBACK — the timeout step of that block found it on its list (`hg`: the groups on that list have their records,
+so the step is not abandoned) -/
+theorem C06_unanswered_request_times_out (cfg : Cfg) (blocks : List (List (Tx × Bool))) (last : List (Tx × Bool)) (n : Node) (t : TxId)
+    (rec0 : Rec) (hD : Due cfg n t rec0) (hlen : n.height + blocks.length + 1 = rec0.height)
+    (hB : ∀ j (hj : j < blocks.length), Unanswered cfg (runBlocks cfg n (blocks.take j)) blocks[j] t rec0)
+    (hL : Unanswered cfg (runBlocks cfg n blocks) last t rec0)
+    (hg : let m := runBlocks cfg n blocks
+      let l2 := setTimeoutList cfg (applyTxs cfg m.cache (m.height + 1) m.led last).led (m.height + 1) (last.map (·.1))
+        (applyTxs cfg m.cache (m.height + 1) m.led last).rcpts
+      GlobalsPresent l2 (getTimeoutList l2 (m.height + 1))) :
+    tmGetStatus (runBlocks cfg n (blocks ++ [last])).led t = some .beginRollback := by
+  have hD' := C06_history_keeps_due cfg blocks n t rec0 hD (by omega) hB
+  have hh : (runBlocks cfg n blocks).height = n.height + blocks.length := by
+    clear hD hD' hlen hB hL hg
+    induction blocks generalizing n with
+    | nil => rfl
+    | cons b rest ih =>
+      have := ih (execBlock cfg n b).1
+      rw [execBlock_height] at this
+      simp only [runBlocks, List.foldl_cons, List.length_cons] at this ⊢
+      omega
+  rw [runBlocks_append]
+  show tmGetStatus (execBlock cfg (runBlocks cfg n blocks) last).1.led t = some .beginRollback
+  exact C06_block_fires_due cfg _ last t rec0 hD' hL.nodelete hL.noabort hL.same (by rw [hh]; omega) hg
+
+
+/-- **from the block that accepts it to the block of H+T**: `t` is new when block H = `n.height + 1` starts; that block accepts a
+request for `t` with `0 < T < maxU64 - H` (receipt a success, neither a batch answer nor the begin-failure mark) and carries no receipt
+for it; the `T - 1` blocks after it and the block of height H+T (`last`) accept no receipt for `t`.  Then the record of `t` names the
+deadline H+T, and after the block of height H+T its status is BEGIN_ROLLBACK: it timed out in exactly that block (before it the
+status is the one the request left: `C06_history_keeps_due`) -/
+theorem C06_request_unanswered_until_H_plus_T_times_out (cfg : Cfg) (n : Node) (first : List (Tx × Bool)) (t : TxId)
+    (hN : NewInv { cfg := cfg, cache := n.cache, height := 0, txIndex := 0 } n.led t)
+    (hul : ∀ d, n.height < d → listCount n.led d t = 0)
+    (hwf : ∀ d, WFV (n.led.getS (.timeout d)))
+    (hdst : (t.to.chain == cfg.bxh) = false)
+    (hnd : ∀ p ∈ first, ∀ sg args, p.1 ≠ .bvm sg "interchain" "DeleteInterchain" args)
+    (hng : ∀ p ∈ first, ∀ s i pk, p.1 = .ibtp s i pk → reqFor t p.1 = true → i.group = none)
+    (hna : NoAbort cfg n first)
+    (hnoresp : ∀ p ∈ first, ¬ RespFor t p.1)
+    (s : String) (i : Ibtp) (pk : ProofKind) (rc : Rcpt)
+    (hacc : (Tx.ibtp s i pk, rc) ∈ (first.map (·.1)).zip (applyTxs cfg n.cache (n.height + 1) n.led first).rcpts)
+    (hrf : reqFor t (.ibtp s i pk) = true) (hok : rc.ok = true) (hnb : (rc.ret == "batch_ibtp") = false)
+    (hts : (rc.txStatus == 1) = false) (hT : 0 < i.timeout) (hT2 : i.timeout.toNat < maxU64 - (n.height + 1))
+    (rec0 : Rec) (hrec0 : (execBlock cfg n first).1.led.getS (.txRec t) = some (.trec rec0))
+    (blocks : List (List (Tx × Bool))) (last : List (Tx × Bool)) (hlen : blocks.length + 1 = i.timeout.toNat)
+    (hB : ∀ j (hj : j < blocks.length), Unanswered cfg (runBlocks cfg (execBlock cfg n first).1 (blocks.take j)) blocks[j] t rec0)
+    (hL : Unanswered cfg (runBlocks cfg (execBlock cfg n first).1 blocks) last t rec0)
+    (hg : let m := runBlocks cfg (execBlock cfg n first).1 blocks
+      let l2 := setTimeoutList cfg (applyTxs cfg m.cache (m.height + 1) m.led last).led (m.height + 1) (last.map (·.1))
+        (applyTxs cfg m.cache (m.height + 1) m.led last).rcpts
+      GlobalsPresent l2 (getTimeoutList l2 (m.height + 1))) :
+    rec0.height = n.height + 1 + i.timeout.toNat ∧
+    tmGetStatus (runBlocks cfg n (first :: (blocks ++ [last]))).led t = some .beginRollback := by
+  obtain ⟨rec, hrh, hD⟩ := C06_block_opens_due cfg n first t hN hul hwf hdst hnd hng hna hnoresp s i pk rc hacc hrf hok hnb hts hT hT2
+  have hrr : rec = rec0 := by
+    have := hD.opn.recd
+    rw [hrec0] at this
+    exact (Val.trec.inj (Option.some.inj this)).symm
+  subst hrr
+  refine ⟨hrh, ?_⟩
+  have := C06_unanswered_request_times_out cfg blocks last (execBlock cfg n first).1 t rec hD
+    (by rw [execBlock_height]; omega) hB hL hg
+  simpa [runBlocks] using this
+
+/-- non-vacuity of `Due`: request 1 of the pair c1:s1 → c2:s1, accepted at height 7 with T = 4 (BEGIN, deadline 11, on the list of 11
+once), is due at height 8 -/
+example :
+    let svc : Svc := { ordered := true, blacklist := [], available := true }
+    let s11 : SvcId := { bxh := "1356", chain := "c1", sid := "s1" }
+    let s21 : SvcId := { bxh := "1356", chain := "c2", sid := "s1" }
+    let t : TxId := { frm := s11, to := s21, index := 1 }
+    let n : Node := { height := 8, led := { store := [(.svc "c1" "s1", .svc svc), (.svc "c2" "s1", .svc svc),
+      (.txRec t, .trec { height := 11, status := .begin }), (.ic s11, .ic { ic := [(s21, 1)] }), (.timeout 11, .tlist [some (.single t)])] } }
+    Due {} n t { height := 11, status := .begin } := by
+  intro svc s11 s21 t n
+  have hnone : ∀ d, d ≠ 11 → n.led.getS (.timeout d) = none := by
+    intro d hd
+    simp [n, Led.getS, KV.get]
+    intro e; exact hd e.symm
+  refine ⟨⟨⟨Or.inr ⟨by decide, by decide, rfl, ?_⟩, by decide, rfl⟩, by decide, ?_, ?_⟩, rfl, by decide, by decide, ?_⟩
+  · intro sv h
+    have : n.led.getS (.svc s21.chain s21.sid) = some (.svc svc) := by decide
+    rw [this] at h
+    cases h; rfl
+  · intro d _
+    unfold listCount
+    by_cases hd : d = 11
+    · subst hd; decide
+    · rw [hnone d hd]; exact Nat.zero_le _
+  · rintro d _ ⟨lst, e, _⟩
+    by_cases hd : d = 11
+    · exact hd
+    · exfalso; rw [hnone d hd] at e; cases e
+  · intro d lst e
+    by_cases hd : d = 11
+    · subst hd
+      have : n.led.getS (.timeout 11) = some (.tlist [some (.single t)]) := by decide
+      rw [this] at e
+      cases e
+      right; intro x hx; simp at hx; rw [hx]; simp
+    · rw [hnone d hd] at e; cases e
+
 end Bxh.Props.C06
